@@ -34,6 +34,107 @@ def within(d, c):
     return d is not None and (c is None or d <= c)
 
 
+# ---------------------------------------------------------------------------------------------------
+# sessions: one Network object, a sequence of calls (see Model/GraphSession.lean)
+# op forms (JSON): ["n", v] addNode · ["e", id, src, tgt, w, ori] addEdge · ["r", s, t|None, cut, ud, obj] run_routing_forward
+#   ["d", s, t, cut, ud, obj] shortest_distance · ["l", s, cut, ud, obj] list form · ["a", cut, ud] all_shortest_distances
+#   ["p", cut] prepare · ["q", s, t, obj] prepared_shortest_distance · ["h", s, t, obj] has_prepared_shortest_distance
+#   ["s", s, cut, obj] sub_network(TOPOLOGIC) [+ a search on every node of the returned network, which shares the Node objects]
+#   ["v"] save_prep(file) then load_prep(file)
+# cut: "none" or a number token; ud: 1 = the caller's dictionary is passed as output_dict; obj: 0 ids, 1 the network's Node
+# objects, 2 fresh Node objects with the same ids
+# ---------------------------------------------------------------------------------------------------
+SESS_CUTS = ["none", "none", 0, "1/2", 1, 2, 3, 5]
+SESS_W = [0, 0, 1, 1, 2, 3, "1/2", "3/2"]
+
+
+def sess_valid(case):
+    """every call is inside the session's domain (known nodes, fresh edge ids, prepare before prepared_*)"""
+    n = case["n"]
+    nodes, eids, prepared = set(), set(), False
+    for op in case["ops"]:
+        k = op[0]
+        if k == "n":
+            if not 0 <= op[1] < n:
+                return False
+            nodes.add(op[1])
+        elif k == "e":
+            if op[1] in eids or not (0 <= op[2] < n and 0 <= op[3] < n):
+                return False
+            eids.add(op[1]); nodes.update([op[2], op[3]])
+        elif k in ("r", "d"):
+            if op[1] not in nodes or (op[2] is not None and op[2] not in nodes):
+                return False
+        elif k in ("l", "s"):
+            if op[1] not in nodes:
+                return False
+        elif k == "p":
+            prepared = True
+        elif k in ("q", "h", "v"):
+            if not prepared:
+                return False
+    return True
+
+
+def random_session(rng):
+    n = rng.randint(2, 6)
+    ops, nodes, eid, prepared = [], [], 0, False
+    cut = lambda: rng.choice(SESS_CUTS)
+    obj = lambda: rng.choice([0, 0, 1, 2])
+    for step in range(rng.randint(4, 22)):
+        r = rng.random()
+        if not nodes or r < (0.6 if step < 3 else 0.22):
+            a = rng.randrange(n)
+            b = rng.choice(nodes) if nodes and rng.random() < 0.5 else rng.randrange(n)
+            if rng.random() < 0.5:
+                a, b = b, a
+            ops.append(["e", eid, a, b, rng.choice(SESS_W), rng.choice([-1, 0, 0, 1])])
+            eid += rng.choice([1, 1, 2])
+            for v in (a, b):
+                if v not in nodes:
+                    nodes.append(v)
+        elif r < 0.27:
+            v = rng.randrange(n)
+            ops.append(["n", v])
+            if v not in nodes:
+                nodes.append(v)
+        elif r < 0.47:
+            ops.append(["d", rng.choice(nodes), rng.choice(nodes), cut(), rng.choice([0, 0, 1]), obj()])
+        elif r < 0.57:
+            ops.append(["l", rng.choice(nodes), cut(), rng.choice([0, 0, 1]), obj()])
+        elif r < 0.67:
+            ops.append(["r", rng.choice(nodes), rng.choice(nodes + [None, None]), cut(), rng.choice([0, 0, 1]), obj()])
+        elif r < 0.75:
+            ops.append(["a", cut(), rng.choice([0, 1])])
+        elif r < 0.82:
+            ops.append(["p", cut()]); prepared = True
+        elif r < 0.84 and prepared:
+            ops.append(["v"])
+        elif r < 0.91 and prepared:
+            ops.append([rng.choice(["q", "q", "h"]), rng.choice(nodes), rng.choice(nodes), obj()])
+        else:
+            ops.append(["s", rng.choice(nodes), cut(), obj()])
+    # node ids as the network reader produces them (strings) in a third of the sessions; "n0" < "n1" < … keeps the id order
+    return {"kind": "sess", "n": n, "ids": rng.choice(["int", "int", "str"]), "ops": ops}
+
+
+def json_op(op):
+    return "%s(%s)" % ({"n": "addNode", "e": "addEdge", "r": "run_routing_forward", "d": "shortest_distance", "l": "shortest_distance[list]",
+                        "a": "all_shortest_distances", "p": "prepare", "q": "prepared_shortest_distance",
+                        "h": "has_prepared_shortest_distance", "s": "sub_network", "v": "save_prep+load_prep"}[op[0]], ",".join(str(x) for x in op[1:]))
+
+
+def dtok(x):
+    """a label / distance read from the real code -> token (`none` = -1 or 1e300)"""
+    if x == -1 or (isinstance(x, float) and x >= 1e299):
+        return "none"
+    return nc.tok(Fraction(x))
+
+
+def table_tok(tb, unlab=lambda x: x):
+    return sorted([unlab(k[0]), unlab(k[1]), nc.tok(Fraction(v))] for k, v in tb.items())
+
+
 class P(Prop):
     id = "C06"
     design_ref = "DESIGN.md section 5, C06; appendix A.2"
@@ -52,23 +153,69 @@ class P(Prop):
         (M, "TV.C06.pop_smallest_min", "priority_dict.pop_smallest returns the key with the smallest (priority, key) among the current dict entries despite stale heap tuples, removes only it, keeps the heap invariant"),
         (M, "TV.C06.priority_dict_setitem", "priority_dict.__setitem__ (push or rebuild) sets that entry only and keeps the heap invariant; the constructor establishes it"),
         (M, "TV.C06.forward_uses_priority_dict", "run_routing_forward written with the explicit priority_dict equals the loop with the abstract extract-min, so every theorem holds for it"),
+        (M, "TV.C06.shortest_distance_cut_sound", "shortest_distance(s,t,cut): whatever is returned is the weight of a permitted walk; the sentinel is returned only when no walk within the cut-off exists"),
+        (M, "TV.C06.next_edges_exactly_permitted_arcs", "orientation semantics: NEXT_EDGES[u] read with the 'other end' rule = exactly the permitted arcs out of u (>= 0 source->target, <= 0 target->source)"),
+        (M, "TV.C06.output_dict_entries_sound", "every output_dict entry of any search (any target, any cut-off) is the true distance of its key, within the cut-off; entries = visited nodes"),
+        (M, "TV.C06.dictionary_accumulates", "all_shortest_distances / prepare on a dictionary with earlier entries: keys within the cut-off get the true distance, all other keys keep their value (any number of calls)"),
+        (M, "TV.C06.sub_network_edges", "sub_network(s, cut, TOPOLOGIC) keeps exactly the edges whose two ends are within the cut-off of s"),
+        (M, "TV.C06.search_starts_clean", "__resetFlags + source.poids = 0 yields the initial labelling whatever flags earlier calls left on the nodes"),
+        (M, "TV.C06.session_invariant", "after any sequence of addNode / addEdge / searches / all_shortest_distances / prepare / sub_network calls the object satisfies the session invariant"),
+        (M, "TV.C06.session_answers_pure", "in any state reached by any call sequence every call answers with the pure function of the current graph (no trace of earlier searches)"),
+        (M, "TV.C06.session_distance_correct", "in any state reached by any call sequence shortest_distance(s,t[,cut]) = the minimum over permitted walks of the current graph; sentinel iff no walk"),
+        (M, "TV.C06.session_tables_sound", "DISTANCES and a caller's output_dict hold only true distances through every call that does not add an edge"),
+        (M, "TV.C06.tuple_order_ok", "Python's order on (priority, key) tuples is a strict weak order (what heapq needs)"),
+        (M, "TV.C06.heapq_heappush", "heapq.heappush (append + _siftdown) keeps the heap invariant and adds exactly the item (permutation)"),
+        (M, "TV.C06.heapq_heappop_min", "heapq.heappop (_siftup: bubble to a leaf, then _siftdown) returns a minimum of the multiset, leaves the other items, keeps the heap invariant; fails iff empty"),
+        (M, "TV.C06.heapq_heapify", "heapq.heapify turns any list into a heap with the same items"),
     ]
     partial = []
-    open_statements = ["heapq (heapify/heappush/heappop) is not modelled: the heap is a list and heappop removes a smallest (priority, key) tuple",
-                       "weights are elements of a linearly ordered additive commutative monoid in the theorems; float rounding of sums of non-dyadic weights is outside them"]
-    modelled = ("Network.addEdge (NEXT_EDGES by orientation), run_routing_forward in Dijkstra mode (pop by (poids, node id), stop tests "
-                "before recording, 'other end' rule, visite guard, strict < relaxation, output_dict), shortest_distance (pair and list form), "
-                "all_shortest_distances, prepare, prepared_shortest_distance; priority_dict (tracklib/core/utils.py): constructor, __setitem__ with the rebuild threshold, "
-                "pop_smallest with lazy deletion, len — as Model/PDict.lean, and the forward loop over it as Model/GraphPD.lean (proved equal to the abstract loop)")
-    trusted = ["heapq is trusted to implement a priority queue of (priority, key) tuples (Python tuple order; Node.__lt__ compares ids)",
+    open_statements = ["float weights: the theorems need only a linear order, a + 0 = a, 0 <= w -> a <= a + w and a <= b -> a + w <= b + w (no associativity: code and Walk both add from the source outwards), "
+                       "which IEEE round-to-nearest addition has on non-NaN doubles; they are stated with Mathlib's ordered-monoid classes, so the instance for IEEE doubles is not constructed in Lean "
+                       "(the float stream compares with exact rational distances at 1e-9 relative)",
+                       "save_prep / load_prep are modelled as 'the dictionary read back is the dictionary written' (numpy's pickle is exercised by the sessions, not modelled); "
+                       "sub_network in GEOMETRIC mode and A* mode are outside the model"]
+    modelled = ("Network.addNode / addEdge (NEXT_EDGES by orientation), __resetFlags, run_routing_forward in Dijkstra mode (pop by (poids, node id), stop tests "
+                "before recording, 'other end' rule, visite guard, strict < relaxation, output_dict), shortest_distance (pair and list form, ids or Node objects, with output_dict), "
+                "all_shortest_distances (fresh or caller's dictionary), prepare, prepared_shortest_distance, has_prepared_shortest_distance, sub_network (TOPOLOGIC) — "
+                "as pure functions (Model/Graph.lean) and as a state machine over call sequences on one object (Model/GraphSession.lean); "
+                "priority_dict (tracklib/core/utils.py): constructor, __setitem__ with the rebuild threshold, pop_smallest with lazy deletion, len (Model/PDict.lean) "
+                "on top of heapq's heapify / heappush / heappop with _siftdown / _siftup on the list (Model/Heapq.lean); the forward loop over the priority_dict as Model/GraphPD.lean "
+                "(proved equal to the abstract loop)")
+    trusted = ["CPython's _heapq C accelerator is taken to run the algorithm of Lib/heapq.py (checked position by position on random operation sequences by the hq and pq streams); "
+               "Node.__lt__ compares ids, so (poids, Node) tuples are ordered as (priority, id)",
                "A* routing mode (routing_mode = 1) is outside the model"]
     rule = ("every multigraph on <= 3 nodes with <= 2 edges as ordered edge lists (quick) and with 3 edges as multisets in shuffled order (thorough), "
             "weights {0,1,2}, orientations {-1,0,1}, self-loops and parallel edges included, node insertion order shuffled; random graphs to 12 nodes / 40 edges "
             "with integer and dyadic weights. Per graph: every ordered pair, cut-offs below/equal/above each distinct distance (a sample of them for the "
-            "large random graphs), all API forms. Random graphs with float weights (model instantiated at Float, oracle in exact rationals, 1e-9 relative). Plus random set/pop sequences on priority_dict alone (ties, lowered and raised priorities, pops on empty). "
-            "non-trivial = at least one ordered pair s != t is joined by a walk (graphs) / at least one pop (priority_dict)")
+            "large random graphs), all API forms. Random graphs with float weights (model instantiated at Float, oracle in exact rationals, 1e-9 relative). "
+            "Random set/pop sequences on priority_dict alone (ties, lowered and raised priorities, pops on empty), comparing results and the _heap list position by position; "
+            "random heapify/heappush/heappop sequences on lists of (priority, key) tuples with ties against Python's heapq, list compared position by position. "
+            "Sessions: random sequences of 4-22 calls on ONE Network object with <= 6 nodes (addNode, addEdge interleaved with shortest_distance in pair/list form, run_routing_forward with "
+            "the flags read back, all_shortest_distances, prepare/prepared/has_prepared, save_prep+load_prep through a temporary file, sub_network followed by searches on the returned network that shares the Node objects; "
+            "cut-offs none/0/.5/1/2/3/5; ids, the network's Node objects or fresh equal Node objects as arguments; a caller's dictionary passed repeatedly as output_dict), every answer "
+            "checked against Floyd-Warshall on the graph as built so far. "
+            "Several (2-3) small networks alive at the same time with their calls interleaved. Every case is evaluated on freshly executed definitions of network.py / utils.py "
+            "(state kept at module, class or default-argument level cannot leak from one case to the next: a failing case fails in a fresh process). "
+            "non-trivial = at least one ordered pair s != t is joined by a walk (graphs) / at least one pop (priority_dict, heapq) / a distance query after an edge was added (sessions)")
 
     def setup(self):
+        self.mods = nc.import_mods()
+
+    def fresh(self):
+        """Hermetic evaluation: every case runs on freshly executed definitions of the two anchored modules
+        (tracklib/core/utils.py, tracklib/core/network.py), so that state kept at module / class / default-argument
+        level by an earlier case cannot reach this one. A failing case therefore fails in a fresh process too
+        (`--replay`); state carried from one call or one Network object to the next is exercised INSIDE a case
+        (the sessions, the several cut-offs / prepares of a graph case, the `multi` cases with several networks)."""
+        import tracklib.core as C
+        import tracklib.core.utils as U
+        import tracklib.core.network as N
+        if getattr(self, "_code", None) is None:
+            # the sources are read and compiled once per process; executing them again re-creates every class and function
+            self._code = [compile(open(m.__file__).read(), m.__file__, "exec") for m in (U, N)]
+        exec(self._code[0], U.__dict__)
+        C.priority_dict = U.priority_dict
+        exec(self._code[1], N.__dict__)
         self.mods = nc.import_mods()
 
     # ---------------------------------------------------------------- generators
@@ -76,6 +223,8 @@ class P(Prop):
         s = ["all edge lists (ordered) of length 0..2 on 1..3 nodes over {src,tgt} x weights {0,1,2} x orientations {-1,0,1} (8067 graphs) x all ordered pairs x cut-offs {d-1/2, d, d+1/2 : d a distance} and none"]
         if tier == "thorough":
             s.append("all multisets of 3 edges on 1..3 nodes over the same alphabet (100482 multigraphs), edge and node insertion order shuffled")
+        s.append("heapq: all lists of 0..%d tuples over priorities {0,1} x keys {0,1} (%d lists): heapify, then heappop until IndexError, the list compared after every step"
+                 % ((5, 1365) if tier == "quick" else (6, 5461)))
         return s
 
     def cases(self, rng, tier):
@@ -122,11 +271,49 @@ class P(Prop):
                     p = rng.choice([0, 1, 1, 2, 3, "1/2", "3/2"])
                     ops.append(["s", rng.randrange(nk), p])
             out.append({"kind": "pq", "init": init, "ops": ops})
+        # heapq, exhaustively: every list of up to 5 (6 in thorough) tuples over {0,1} x {0,1}: heapify, then pop until empty (+ one more)
+        import itertools
+        for ln in range(0, 6 if tier == "quick" else 7):
+            for tp in itertools.product(range(4), repeat=ln):
+                out.append({"kind": "hq", "init": [[c // 2, c % 2] for c in tp], "ops": [["h"]] + [["o"]] * (ln + 1), "ex": 1})
+        # heapq on its own: the list after every operation, position by position
+        for _ in range(800 if tier == "quick" else 12000):
+            nk = rng.randint(1, 5)
+            tup = lambda: [rng.choice([0, 1, 1, 2, 3, "1/2", "3/2"]), rng.randrange(nk)]
+            init = [tup() for _ in range(rng.randint(0, 9))]
+            ops = [["h"]] if rng.random() < 0.7 else []
+            for _ in range(rng.randint(1, 20)):
+                r = rng.random()
+                ops.append(["o"] if r < 0.4 else ["h"] if r < 0.47 else ["u"] + tup())
+            out.append({"kind": "hq", "init": init, "ops": ops})
+        # one Network object, a sequence of calls
+        for _ in range(1200 if tier == "quick" else 20000):
+            out.append(random_session(rng))
+        # two or three Network objects alive at the same time, their calls interleaved
+        for _ in range(300 if tier == "quick" else 5000):
+            subs = []
+            for _ in range(rng.choice([2, 2, 3])):
+                g = dict(nc.random_graph(rng, small=True), kind="rnd-small")
+                allc = nc.cuts_for(nc.floyd_warshall(g["n"], g["edges"]))
+                g["cuts"] = ["none"] + sorted({nc.tok(c) for c in rng.sample(allc, min(2, len(allc)))}, key=Fraction)
+                subs.append(g)
+            out.append({"kind": "multi", "subs": subs})
         return out
 
     def describe(self, case):
         if case["kind"] == "pq":
             return {"kind": "pq", "pops": min(10, sum(1 for o in case["ops"] if o[0] == "p"))}
+        if case["kind"] == "hq":
+            return {"kind": "hq", "pops": min(10, sum(1 for o in case["ops"] if o[0] == "o")), "heapify": any(o[0] == "h" for o in case["ops"])}
+        if case["kind"] == "multi":
+            return {"kind": "multi", "networks": len(case["subs"])}
+        if case["kind"] == "sess":
+            ks = [o[0] for o in case["ops"]]
+            first_q = next((i for i, k in enumerate(ks) if k not in "ne"), len(ks))
+            return {"kind": "sess", "calls": "<=8" if len(ks) <= 8 else "9-16" if len(ks) <= 16 else "17+",
+                    "edge_after_search": any(k == "e" for k in ks[first_q:]), "sub_network": "s" in ks,
+                    "output_dict": any(o[0] in "rdl" and o[-2] == 1 or o[0] == "a" and o[2] == 1 for o in case["ops"]),
+                    "node_objects": any(o[0] in "rdlqhs" and o[-1] != 0 for o in case["ops"]), "ids": case.get("ids", "int")}
         edges = nc.expand(case)
         ws = [nc.num(e[3]) for e in edges]
         pairs = [(min(e[1], e[2]), max(e[1], e[2])) for e in edges]
@@ -138,6 +325,17 @@ class P(Prop):
     def nontrivial(self, case):
         if case["kind"] == "pq":
             return any(o[0] == "p" for o in case["ops"])
+        if case["kind"] == "hq":
+            return any(o[0] == "o" for o in case["ops"])
+        if case["kind"] == "multi":
+            return any(self.nontrivial(sub) for sub in case["subs"])
+        if case["kind"] == "sess":
+            seen_edge = False
+            for o in case["ops"]:
+                seen_edge = seen_edge or o[0] == "e"
+                if seen_edge and o[0] in "dlarps":
+                    return True
+            return False
         n = case["n"]
         d = nc.floyd_warshall(n, nc.expand(case))
         return any(d[s][t] is not None for s in range(n) for t in range(n) if s != t)
@@ -157,6 +355,97 @@ class P(Prop):
                 else:
                     pd[op[1]] = nc.pynum(op[2])
                     res.append(str(len(pd)))
+                res[-1] += "@" + self.heap_tok(pd._heap)
+        return {"res": res}
+
+    @staticmethod
+    def heap_tok(h):
+        return "~".join("%s:%d" % (nc.tok(Fraction(v)), k) for v, k in h) or "_"
+
+    def impl_hq(self, case):
+        import heapq
+        with nc.time_limit(3):
+            h = [(nc.pynum(p), k) for p, k in case["init"]]
+            res = []
+            for op in case["ops"]:
+                if op[0] == "h":
+                    heapq.heapify(h); r = "-"
+                elif op[0] == "u":
+                    heapq.heappush(h, (nc.pynum(op[1]), op[2])); r = "-"
+                else:
+                    try:
+                        v, k = heapq.heappop(h)
+                        r = "%s:%d" % (nc.tok(Fraction(v)), k)
+                    except IndexError:
+                        r = "err"
+                res.append(r + "@" + self.heap_tok(h))
+        return {"res": res}
+
+    def impl_sess(self, case):
+        Network, Node, Edge, Track, Obs, ENUCoords, ObsTime = self.mods
+        res = []
+        with nc.time_limit(10):
+            net = Network()
+            mine = {}          # the Node objects handed to addNode / addEdge
+            ud = {}            # the caller's dictionary
+            strs = case.get("ids", "int") == "str"
+            lab = (lambda v: None if v is None else "n%d" % v) if strs else (lambda v: v)
+            unlab = (lambda x: int(x[1:])) if strs else (lambda x: x)
+            def node(v):
+                if v not in mine:
+                    mine[v] = Node(lab(v), ENUCoords(v, 0, 0))
+                return mine[v]
+            def arg(v, obj):
+                if v is None or obj == 0:
+                    return lab(v)
+                return net.NODES[lab(v)] if obj == 1 else Node(lab(v), ENUCoords(v, 1, 0))
+            ckw = lambda c: {} if c == "none" else {"cut": nc.pynum(c)}
+            for op in case["ops"]:
+                k = op[0]
+                if k == "n":
+                    net.addNode(node(op[1])); r = "ok"
+                elif k == "e":
+                    e = Edge(op[1], Track())
+                    e.orientation = op[5]
+                    e.weight = nc.pynum(op[4])
+                    net.addEdge(e, node(op[2]), node(op[3])); r = "ok"
+                elif k == "r":
+                    net.run_routing_forward(arg(op[1], op[5]), arg(op[2], op[5]), output_dict=ud if op[4] else None, **ckw(op[3]))
+                    ns = [net.NODES[i] for i in net.getNodesId()]
+                    r = ["f", [dtok(x.poids) for x in ns], [1 if x.visite else 0 for x in ns]]
+                elif k == "d":
+                    r = ["v", dtok(net.shortest_distance(arg(op[1], op[5]), arg(op[2], op[5]), output_dict=ud if op[4] else None, **ckw(op[3])))]
+                elif k == "l":
+                    r = ["l", [dtok(x) for x in net.shortest_distance(arg(op[1], op[4]), output_dict=ud if op[3] else None, **ckw(op[2]))]]
+                elif k == "a":
+                    tb = net.all_shortest_distances(output_dict=ud if op[2] else None, **ckw(op[1]))
+                    r = ["t", table_tok(tb, unlab)]
+                elif k == "p":
+                    net.prepare(verbose=False, **ckw(op[1])); r = "ok"
+                elif k == "q":
+                    r = ["v", dtok(net.prepared_shortest_distance(arg(op[1], op[3]), arg(op[2], op[3])))]
+                elif k == "h":
+                    r = ["b", 1 if net.has_prepared_shortest_distance(arg(op[1], op[3]), arg(op[2], op[3])) else 0]
+                elif k == "v":
+                    import tempfile, os
+                    fd, path = tempfile.mkstemp(suffix=".npy")
+                    os.close(fd)
+                    try:
+                        net.save_prep(path)
+                        net.DISTANCES = None
+                        net.load_prep(path)
+                    finally:
+                        os.remove(path)
+                    r = "ok"
+                elif k == "s":
+                    sub = net.sub_network(arg(op[1], op[3]), 1e300 if op[2] == "none" else nc.pynum(op[2]), verbose=False)
+                    ids = sub.getNodesId()
+                    # searches on the returned network (it shares the Node objects with `net`), then `net` goes on
+                    probe = [[dtok(sub.shortest_distance(a, b)) for b in ids] for a in ids]
+                    r = ["s", [unlab(x) for x in ids], list(sub.getEdgesId()), probe]
+                res.append(r)
+                if (k in "rd" and op[4]) or (k == "l" and op[3]) or (k == "a" and op[2]):
+                    res.append(["t", table_tok(ud, unlab)])
         return {"res": res}
 
     def impl_float(self, case):
@@ -172,10 +461,17 @@ class P(Prop):
         return out
 
     def impl(self, case):
+        if case["kind"] == "hq":
+            return self.impl_hq(case)
+        self.fresh()
         if case["kind"] == "pq":
             return self.impl_pq(case)
+        if case["kind"] == "sess":
+            return self.impl_sess(case)
         if case["kind"] == "rnd-float":
             return self.impl_float(case)
+        if case["kind"] == "multi":
+            return self.impl_multi(case)
         n = case["n"]
         edges = nc.expand(case)
         dist = nc.floyd_warshall(n, edges)          # only to choose the cut-offs
@@ -197,12 +493,80 @@ class P(Prop):
                 out["prep"].append([[vtok(net.prepared_shortest_distance(s, t)) for t in range(n)] for s in range(n)])
         return out
 
+    def impl_multi(self, case):
+        """several Network objects alive at the same time, their calls interleaved cut-off by cut-off"""
+        subs = case["subs"]
+        outs, nets, cutss = [], [], []
+        with nc.time_limit(20):
+            for sub in subs:
+                nets.append(nc.build_network(self.mods, sub))
+                cuts = cut_tokens(sub, nc.floyd_warshall(sub["n"], nc.expand(sub)))
+                cutss.append(cuts)
+                outs.append({"cuts": cuts, "pairs": [], "lists": [], "all": [], "prep": []})
+            for ci in range(max(len(c) for c in cutss)):
+                for sub, net, cuts, out in zip(subs, nets, cutss, outs):
+                    if ci >= len(cuts):
+                        continue
+                    n, c = sub["n"], cuts[ci]
+                    kw = {} if c == "none" else {"cut": nc.pynum(c)}
+                    out["pairs"].append([[vtok(net.shortest_distance(s, t, **kw)) for t in range(n)] for s in range(n)])
+                    out["lists"].append([[vtok(x) for x in net.shortest_distance(s, **kw)] for s in range(n)])
+                    out["all"].append(sorted([k[0], k[1], vtok(v)] for k, v in net.all_shortest_distances(**kw).items()))
+            combos = [prep_combos(c) for c in cutss]
+            for k in range(max(len(c) for c in combos)):
+                for net, cb in zip(nets, combos):        # prepare on every network first …
+                    if k < len(cb):
+                        c1, c2 = cb[k]
+                        net.DISTANCES = None
+                        net.prepare(verbose=False, **({} if c1 == "none" else {"cut": nc.pynum(c1)}))
+                        if c2 != "-":
+                            net.prepare(verbose=False, **({} if c2 == "none" else {"cut": nc.pynum(c2)}))
+                for sub, net, cb, out in zip(subs, nets, combos, outs):     # … then read them all
+                    if k < len(cb):
+                        n = sub["n"]
+                        out["prep"].append([[vtok(net.prepared_shortest_distance(s, t)) for t in range(n)] for s in range(n)])
+        return {"subs": outs}
+
     # ---------------------------------------------------------------- model
     def requests(self, case):
+        if case["kind"] == "multi":
+            return [ln for sub in case["subs"] for ln in self.requests(sub)]
         if case["kind"] == "pq":
             init = ";".join("%d,%s" % (k, nc.tok(nc.num(p))) for k, p in case["init"]) or "_"
             ops = ";".join("p" if o[0] == "p" else "s,%d,%s" % (o[1], nc.tok(nc.num(o[2]))) for o in case["ops"]) or "_"
             return ["C06.pq %s %s" % (init, ops)]
+        if case["kind"] == "hq":
+            init = ";".join("%s:%d" % (nc.tok(nc.num(p)), k) for p, k in case["init"]) or "_"
+            ops = ";".join(o[0] if o[0] != "u" else "u,%s,%d" % (nc.tok(nc.num(o[1])), o[2]) for o in case["ops"]) or "_"
+            return ["C06.hq %s %s" % (init, ops)]
+        if case["kind"] == "sess":
+            ct = lambda c: "none" if c == "none" else nc.tok(nc.num(c))
+            toks = []
+            for op in case["ops"]:
+                k = op[0]
+                if k == "n":
+                    toks.append("n,%d" % op[1])
+                elif k == "e":
+                    toks.append("e,%d,%d,%d,%s,%d" % (op[1], op[2], op[3], nc.tok(nc.num(op[4])), op[5]))
+                elif k == "r":
+                    toks.append("r,%d,%s,%s,%d" % (op[1], "_" if op[2] is None else op[2], ct(op[3]), op[4]))
+                elif k == "d":
+                    toks.append("d,%d,%d,%s,%d" % (op[1], op[2], ct(op[3]), op[4]))
+                elif k == "l":
+                    toks.append("l,%d,%s,%d" % (op[1], ct(op[2]), op[3]))
+                elif k == "a":
+                    toks.append("a,%s,%d" % (ct(op[1]), op[2]))
+                elif k == "p":
+                    toks.append("p,%s" % ct(op[1]))
+                elif k in "qh":
+                    toks.append("%s,%d,%d" % (k, op[1], op[2]))
+                elif k == "s":
+                    toks.append("s,%d,%s" % (op[1], ct(op[2])))
+                elif k == "v":
+                    toks.append("v")
+                if (k in "rd" and op[4]) or (k == "l" and op[3]) or (k == "a" and op[2]):
+                    toks.append("u")
+            return ["C06.sess %d %s" % (case["n"], ";".join(toks) or "_")]
         if case["kind"] == "rnd-float":
             es = ";".join("%d,%d,%d,%s,%d" % (i, a, b, fbits(w), o) for (i, a, b, w, o) in case["edges"]) or "_"
             order = ",".join(map(str, case["order"]))
@@ -235,10 +599,45 @@ class P(Prop):
         return [[none_as if x == "none" else x for x in r.split(",")] for r in rows]
 
     def decode(self, case, replies):
+        if case["kind"] == "multi":
+            outs, i = [], 0
+            for sub in case["subs"]:
+                k = len(self.requests(sub))
+                outs.append(self.decode(sub, replies[i:i + k]))
+                i += k
+            return {"subs": outs}
         if case["kind"] == "pq":
             if replies[0] == "bad-request":
                 raise ValueError("bad-request")
             return {"res": [] if replies[0] == "_" else replies[0].split(",")}
+        if case["kind"] == "hq":
+            if replies[0] == "bad-request":
+                raise ValueError("bad-request")
+            return {"res": [] if replies[0] == "_" else replies[0].split(",")}
+        if case["kind"] == "sess":
+            if replies[0] == "bad-request":
+                raise ValueError("bad-request")
+            lst = lambda t: [] if t in ("_", "") else t.split(",")
+            res = []
+            for tokn in ([] if replies[0] == "_" else replies[0].split(";")):
+                if tokn in ("ok", "err"):
+                    res.append(tokn); continue
+                k, body = tokn[0], tokn[2:]
+                if k == "f":
+                    d, v = body.split("|")
+                    res.append(["f", lst(d), [int(x) for x in lst(v)]])
+                elif k == "v":
+                    res.append(["v", body])
+                elif k == "l":
+                    res.append(["l", lst(body)])
+                elif k == "t":
+                    res.append(["t", sorted([int(a), int(b), d] for a, b, d in (x.split(".") for x in lst(body)))])
+                elif k == "b":
+                    res.append(["b", int(body)])
+                elif k == "s":
+                    ns, es = body.split("|")
+                    res.append(["s", [int(x) for x in lst(ns)], [int(x) for x in lst(es)]])
+            return {"res": res}
         if case["kind"] == "rnd-float":
             out = {"pairs": [], "lists": [], "all": []}
             fm = lambda rep, none_as: [[none_as if x == "none" else bitsf(x) for x in r.split(",")] for r in rep.split(";")]
@@ -278,6 +677,9 @@ class P(Prop):
             m = self.spec_pq(case, impl_out)     # the reference dict agrees with the model; name what differs
             if m:
                 return m
+        if case["kind"] == "sess" and "res" in impl_out and isinstance(model_out, dict) and "res" in model_out:
+            # the searches on the returned sub-network are not part of the one-object model (checked by spec_sess)
+            impl_out = {"res": [r[:3] if isinstance(r, list) and r and r[0] == "s" else r for r in impl_out["res"]]}
         return Prop.compare(self, case, impl_out, model_out)
 
     # ---------------------------------------------------------------- oracle
@@ -286,10 +688,18 @@ class P(Prop):
             if out["err"] == "err:Skipped":
                 return None     # not evaluated (see netcommon.time_limit); the cases that timed out are the failures
             return "the implementation failed: %s %s" % (out["err"], out.get("detail", ""))
-        if case["kind"] == "pq":
-            # correspondence-only stream: the property speaks about distances, not about the queue on its own;
+        if case["kind"] in ("pq", "hq"):
+            # correspondence-only streams: the property speaks about distances, not about the queue on its own;
             # a queue that departs from its model is reported through compare() (and the graph streams decide
             # whether any distance is wrong)
+            return None
+        if case["kind"] == "sess":
+            return self.spec_sess(case, out)
+        if case["kind"] == "multi":
+            for i, (sub, o) in enumerate(zip(case["subs"], out["subs"])):
+                m = self.spec(sub, o)
+                if m:
+                    return "network %d of %d alive at the same time: %s" % (i, len(case["subs"]), m)
             return None
         if case["kind"] == "rnd-float":
             return self.spec_float(case, out)
@@ -366,11 +776,158 @@ class P(Prop):
                     return "all_shortest_distances(cut=%s)[(%d,%d)] = %r, true distance %r" % (c, s, t, v, float(d[s][t]))
         return None
 
+    def spec_sess(self, case, out):
+        """every answer of the session against Floyd-Warshall on the graph as built so far. Checked: what the property
+        states — sentinel iff unreachable; true distance whenever it is within the cut-off; a table filled by
+        all_shortest_distances / prepare / a search without target holds exactly the pairs within the cut-off, each with
+        its true distance; every entry written to a dictionary is a true distance of the graph at that moment.
+        Left free: labels beyond the cut-off, which nodes a search stopped at a target has recorded, entries written
+        before an edge was added (they are not distances of the current graph)."""
+        n = case["n"]
+        nodes, edges, ver = [], [], 0
+        res = list(out["res"])
+        pos = 0
+        E = {}            # expected content of the caller's dictionary: key -> (token, graph version when written)
+        D = None          # expected DISTANCES, same form
+        fw = [None]
+        def dist():
+            if fw[0] is None:
+                fw[0] = nc.floyd_warshall(n, edges)
+            return fw[0]
+        def check_dict(what, got, exp, s_written, complete, c):
+            """`got`: dump of the dictionary; entries of source s_written were (re)written by this call"""
+            d = dist()
+            gotd = {(a, b): v for a, b, v in got}
+            srcs = nodes if s_written is None else [s_written]
+            for s in srcs:
+                for v in nodes:
+                    w = within(d[s][v], c)
+                    g = gotd.get((s, v))
+                    if w and complete:
+                        if g != nc.tok(d[s][v]):
+                            return "%s: dictionary[(%d,%d)] = %s, the true distance %s is within the cut-off" % (what, s, v, g, nc.tok(d[s][v]))
+                        exp[(s, v)] = (g, ver)
+                    elif g is not None and (s, v) not in exp:
+                        # written by this call (it was not there before): must be a true distance within the cut-off
+                        if not w or g != nc.tok(d[s][v]):
+                            return "%s: wrote dictionary[(%d,%d)] = %s; true distance %s, cut-off %s" % (
+                                what, s, v, g, "none" if d[s][v] is None else nc.tok(d[s][v]), c)
+                        exp[(s, v)] = (g, ver)
+                    elif g is not None and exp[(s, v)][0] != g:
+                        # overwritten by this call
+                        if not w or g != nc.tok(d[s][v]):
+                            return "%s: overwrote dictionary[(%d,%d)] with %s; true distance %s, cut-off %s" % (
+                                what, s, v, g, "none" if d[s][v] is None else nc.tok(d[s][v]), c)
+                        exp[(s, v)] = (g, ver)
+            for key in gotd:
+                if key not in exp:
+                    return "%s: dictionary has the key %s, which no call should have written" % (what, list(key))
+            for key in exp:
+                if key not in gotd:
+                    return "%s: the key %s disappeared from the dictionary" % (what, list(key))
+            return None
+        for i, op in enumerate(case["ops"]):
+            if pos >= len(res):
+                return "call %d (%s): no result" % (i, op)
+            r = res[pos]; pos += 1
+            k = op[0]
+            what = "call %d %s" % (i, json_op(op))
+            if isinstance(r, str) and r not in ("ok",):
+                return "%s: %s" % (what, r)
+            if k == "n":
+                if op[1] not in nodes:
+                    nodes.append(op[1])
+                continue
+            if k == "e":
+                edges.append([op[1], op[2], op[3], op[4], op[5]])
+                for v in (op[2], op[3]):
+                    if v not in nodes:
+                        nodes.append(v)
+                ver += 1; fw[0] = None
+                continue
+            d = dist()
+            if k == "d":
+                s, t, c = op[1], op[2], cutval(op[3] if op[3] == "none" else nc.tok(nc.num(op[3])))
+                got = r[1]
+                if d[s][t] is None:
+                    if got != "none":
+                        return "%s = %s but no permitted walk exists (expected -1)" % (what, got)
+                elif within(d[s][t], c) and got != nc.tok(d[s][t]):
+                    return "%s = %s, the minimum over permitted walks is %s" % (what, got, nc.tok(d[s][t]))
+                if op[4]:
+                    m = None if E is None else check_dict(what, res[pos][1], E, s, False, c); pos += 1
+                    if m:
+                        return m
+            elif k in ("l", "r"):
+                s = op[1]
+                c = cutval(op[-3] if op[-3] == "none" else nc.tok(nc.num(op[-3])))
+                t = op[2] if k == "r" else None
+                labels = r[1]
+                if len(labels) != len(nodes):
+                    return "%s: %d values for %d nodes" % (what, len(labels), len(nodes))
+                for j, v in enumerate(nodes):
+                    if d[s][v] is None:
+                        if labels[j] != "none":
+                            return "%s: node %d has the label %s but is unreachable" % (what, v, labels[j])
+                    elif within(d[s][v], c) and (t is None or v == t) and labels[j] != nc.tok(d[s][v]):
+                        return "%s: node %d has the label %s, true distance %s" % (what, v, labels[j], nc.tok(d[s][v]))
+                    if k == "r" and r[2][j] and labels[j] != (None if d[s][v] is None else nc.tok(d[s][v])):
+                        return "%s: node %d is marked visited with the label %s, true distance %s" % (what, v, labels[j], d[s][v])
+                if op[-2]:
+                    m = None if E is None else check_dict(what, res[pos][1], E, s, t is None, c); pos += 1
+                    if m:
+                        return m
+            elif k == "a":
+                c = cutval(op[1] if op[1] == "none" else nc.tok(nc.num(op[1])))
+                if op[2]:
+                    m = None if E is None else check_dict(what, r[1], E, None, True, c)
+                    if m:
+                        return m
+                    if res[pos][1] != r[1]:
+                        E = None       # the dictionary was not filled in place (the property does not require it): its content is no longer predictable
+                    pos += 1
+                else:
+                    want = sorted([s, v, nc.tok(d[s][v])] for s in nodes for v in nodes if within(d[s][v], c))
+                    if r[1] != want:
+                        extra = [x for x in r[1] if x not in want][:3]
+                        missing = [x for x in want if x not in r[1]][:3]
+                        return "%s: entries not among the pairs with distance <= cut: %s; missing or wrong: %s" % (what, extra, missing)
+            elif k == "p":
+                c = cutval(op[1] if op[1] == "none" else nc.tok(nc.num(op[1])))
+                if D is None:
+                    D = {}
+                for s in nodes:
+                    for v in nodes:
+                        if within(d[s][v], c):
+                            D[(s, v)] = (nc.tok(d[s][v]), ver)
+            elif k in ("q", "h"):
+                key = (op[1], op[2])
+                if D is None:
+                    continue
+                if key not in D:
+                    if r[1] not in ("none", 0):
+                        return "%s = %s but no prepare so far had this pair within its cut-off" % (what, r[1])
+                elif D[key][1] == ver:
+                    if (k == "q" and r[1] != D[key][0]) or (k == "h" and r[1] != 1):
+                        return "%s = %s, expected the prepared distance %s" % (what, r[1], D[key][0])
+            elif k == "s":
+                # the returned object is a Network: its own distances must be right (its Node objects are shared with `net`)
+                ids, eids, probe = r[1], r[2], r[3]
+                sub_edges = [e for e in edges if e[0] in eids]
+                ds = nc.floyd_warshall(n, sub_edges)
+                for a, row in zip(ids, probe):
+                    for b, got in zip(ids, row):
+                        want = "none" if ds[a][b] is None else nc.tok(ds[a][b])
+                        if got != want:
+                            return "%s: on the returned sub-network shortest_distance(%d,%d) = %s, expected %s" % (what, a, b, got, want)
+        return None
+
     def spec_pq(self, case, out):
         ref = {k: nc.num(p) for k, p in case["init"]}
         if len(out["res"]) != len(case["ops"]):
             return "%d results for %d operations" % (len(out["res"]), len(case["ops"]))
         for i, (op, got) in enumerate(zip(case["ops"], out["res"])):
+            got = got.split("@")[0]
             if op[0] == "p":
                 if not ref:
                     if got != "err":
@@ -388,11 +945,40 @@ class P(Prop):
 
     # ---------------------------------------------------------------- shrinking / search
     def shrink(self, case):
+        if case["kind"] == "multi":
+            subs = case["subs"]
+            if len(subs) == 1:
+                yield subs[0]
+            for k in range(len(subs)):
+                if len(subs) > 1:
+                    yield dict(case, subs=subs[:k] + subs[k + 1:])
+            for k, sub in enumerate(subs):
+                for c in self.shrink(sub):
+                    yield dict(case, subs=subs[:k] + [c] + subs[k + 1:])
+            return
         if case["kind"] == "pq":
             for k in range(len(case["ops"])):
                 yield dict(case, ops=case["ops"][:k] + case["ops"][k + 1:])
             for k in range(len(case["init"])):
                 yield dict(case, init=case["init"][:k] + case["init"][k + 1:])
+            return
+        if case["kind"] == "hq":
+            for k in range(len(case["ops"])):
+                yield dict(case, ops=case["ops"][:k] + case["ops"][k + 1:])
+            for k in range(len(case["init"])):
+                yield dict(case, init=case["init"][:k] + case["init"][k + 1:])
+            return
+        if case["kind"] == "sess":
+            ops = case["ops"]
+            for k in range(len(ops) - 1, -1, -1):
+                c = dict(case, ops=ops[:k] + ops[k + 1:])
+                if sess_valid(c):
+                    yield c
+            for k, op in enumerate(ops):
+                if op[0] in "rdlqhs" and op[-1] != 0:
+                    yield dict(case, ops=ops[:k] + [op[:-1] + [0]] + ops[k + 1:])
+                if op[0] == "e" and op[4] not in (0, 1):
+                    yield dict(case, ops=ops[:k] + [op[:4] + [1, op[5]]] + ops[k + 1:])
             return
         for c in nc.shrink_graph(case):
             yield c
@@ -404,7 +990,7 @@ class P(Prop):
             yield dict(case, cuts=cut_tokens(case, d))
 
     def mutate(self, case, rng):
-        if case["kind"] == "pq":
+        if case["kind"] in ("pq", "hq", "sess", "multi"):
             return
         c = nc.explicit(case)
         for k, e in enumerate(c["edges"]):
